@@ -11,6 +11,7 @@ import (
 	"encoding/json"
 	"fmt"
 	"math"
+	"runtime"
 	"strings"
 	"time"
 
@@ -169,6 +170,9 @@ type result struct {
 
 // runHistory drives a fresh meter through the history and compares every step with the model.
 func runHistory(kind string, initial uint64, hist []Step) (res result) {
+	if !freshClock() {
+		return result{Engine: "sampler goroutines of an earlier history did not end"}
+	}
 	src := &source{v: initial}
 	var m meter
 	scale := 1.0
@@ -265,6 +269,35 @@ func runHistory(kind string, initial uint64, hist []Step) (res result) {
 	return
 }
 
+// maxCasesPerWorker bounds the bookkeeping memory of one worker whatever the bounds are set to: every
+// evaluated history costs one entry in a hash set. Reaching it ends the run as not exhaustive.
+const maxCasesPerWorker = 25000000
+
+func overCaseCap(c *hl.Ctx) bool {
+	if c.Count("evaluations") < maxCasesPerWorker {
+		return false
+	}
+	c.Cap(fmt.Sprintf("per-worker case cap %d (memory)", maxCasesPerWorker))
+	return true
+}
+
+// maxDistinctPerWorker bounds each of the worker's hash sets (distinct non-trivial histories, distinct
+// states): the sets only feed the coverage figures, so beyond the bound a case is still evaluated and judged
+// but only counted in <set>_beyond_set_cap instead of being remembered. The quick tier stays far below it.
+const maxDistinctPerWorker = 2000000
+
+var setSize = map[string]int{}
+
+func noteDistinct(c *hl.Ctx, set, key string) {
+	if setSize[set] >= maxDistinctPerWorker {
+		c.Add(set+"_beyond_set_cap", 1)
+		return
+	}
+	if c.Distinct(set, key) {
+		setSize[set]++
+	}
+}
+
 type searcher struct {
 	c       *hl.Ctx
 	kind    string
@@ -295,18 +328,18 @@ func (s *searcher) dfs(hist []Step, remaining int, shardAt int) {
 			c.Violation(r.Key, r.What, map[string]interface{}{"kind": s.kind, "initial": s.initial, "history": h2})
 			continue // do not extend a history that already violates
 		}
-		c.Nontrivial(fmt.Sprint(s.kind, s.initial, h2))
+		noteDistinct(c, "distinct_nontrivial", fmt.Sprint(s.kind, s.initial, h2))
 		if n := c.Count("evaluations"); n == 10 || n == 2000 || n == 40000 {
 			c.Sample(map[string]interface{}{"kind": s.kind, "initial": s.initial, "history": fmt.Sprint(h2), "state": r.StateKey})
 		}
-		c.Distinct("states", r.StateKey)
+		noteDistinct(c, "states", r.StateKey)
 		if remaining > 1 {
 			if d, ok := s.seen[r.StateKey]; ok && d >= remaining-1 {
 				c.Add("pruned_by_state_key", 1)
 				continue
 			}
 			s.seen[r.StateKey] = remaining - 1
-			if c.Expired() {
+			if c.Expired() || overCaseCap(c) {
 				return
 			}
 			s.dfs(h2, remaining-1, shardAt)
@@ -331,13 +364,22 @@ func alphabet(full bool) []Step {
 }
 
 func run(c *hl.Ctx) {
-	c.Rule("E2: depth-first search with canonical-state deduplication over histories of (time step, counter move): full alphabet = 11 time steps {0,1ms,9.999s,10s,10.001s,20s,29.999s,30s,299.999s,300s,1000s} x 10 counter moves {+0,+1,+10,+1e6,+2^40,-1,reset to 1,reset to 0,jump to 2^63,jump to 2^64-1} to depth dF; reduced alphabet (5 x 6) to depth dR; for the kbit/s and the request-rate meter and initial counters {0,5}. Each history is replayed on a fresh meter through its public API (Start, getters, Close) with the clock behind the vtime seam, and every step is compared with the reference window model. state = (counter, per window: stored count, age of last sample, rate; average base and age); transition = one observation.")
-	c.Assume("the sampler goroutine is released exactly once per observation (its 10 s Sleep is virtual): sampling instants are the history's instants", "Average() is read at every observation, so its base is the first non-zero observation", "an observation of counter 0 is skipped by design and leaves all rates unchanged", "time never goes backwards")
+	baseG = runtime.NumGoroutine() // no meter exists yet: every goroutine above this number is a sampler
+	c.Rule("E2: depth-first search with canonical-state deduplication over histories of (time step, counter move): full alphabet = 11 time steps {0,1ms,9.999s,10s,10.001s,20s,29.999s,30s,299.999s,300s,1000s} x 10 counter moves {+0,+1,+10,+1e6,+2^40,-1,reset to 1,reset to 0,jump to 2^63,jump to 2^64-1} to depth dF; reduced alphabet (5 x 6) to depth dR; for the kbit/s and the request-rate meter and initial counters {0,5}. Each history is replayed on a fresh meter through its public API (Start, getters, Close) with the clock behind the vtime seam, and every step is compared with the reference window model. state = (counter, per window: stored count, age of last sample, rate; average base and age); transition = one observation." + lifeRule)
+	c.Assume("the sampler goroutine is released exactly once per observation (its 10 s Sleep is virtual): sampling instants are the history's instants", "Average() is read at every observation, so its base is the first non-zero observation", "an observation of counter 0 is skipped by design and leaves all rates unchanged", "time never goes backwards",
+		"lifecycle family: the sampling instants are those at which a sampler goroutine arrives at its Sleep after a round (a goroutine that ends instead took no sample); nothing is assumed about whether a meter samples again after Close+Start",
+		"lifecycle family: between Close and the next Start nothing is read (the statement is silent there); after any Start every read must succeed",
+		"lifecycle family: all samplers of a meter wake at the same instants (one release wakes every parked sampler); a sampler parked at Close stays parked until the next sampling instant")
 	vtime.Enable(t0)
+	// Thorough bounds are chosen so that the enumeration finishes inside the budget and the per-worker
+	// bookkeeping (one 64-bit hash per distinct history and state, the pruning table of interior states) stays
+	// in the low hundreds of MB: the reduced alphabet to depth 6 is 30^6 = 7.3e8 histories, which neither fits
+	// the 15 min budget nor the memory of 16 workers (that run was killed by the kernel); depth 5 is 2.5e7.
 	dF, dR := 2, 4
 	if c.Thorough() {
-		dF, dR = 3, 6
+		dF, dR = 3, 5
 	}
+	c.Info("distinct_sets_capped_at_per_worker", maxDistinctPerWorker)
 	c.Info("depth_full_alphabet", dF)
 	c.Info("depth_reduced_alphabet", dR)
 	for _, kind := range []string{"kbps", "krps"} {
@@ -346,23 +388,37 @@ func run(c *hl.Ctx) {
 			s.dfs(nil, dF, 1)
 			s2 := &searcher{c: c, kind: kind, initial: init, alpha: alphabet(false), seen: map[string]int{}}
 			s2.dfs(nil, dR, 2)
-			if c.Expired() {
+			if c.Expired() || overCaseCap(c) {
 				return
 			}
 		}
 	}
+	runLifecycleFamily(c)
 }
 
 func replay(c *hl.Ctx, raw json.RawMessage) {
+	baseG = runtime.NumGoroutine()
 	var cs struct {
+		Family  string `json:"family,omitempty"`
 		Kind    string `json:"kind"`
 		Initial uint64 `json:"initial"`
-		History []Step `json:"history"`
+		History []Step `json:"history,omitempty"`
+		Ops     []Op   `json:"ops,omitempty"`
 	}
 	if err := json.Unmarshal(raw, &cs); err != nil {
 		panic(err)
 	}
 	vtime.Enable(t0)
+	if cs.Family == "lifecycle" {
+		r := judgeLifecycle(cs.Kind, cs.Initial, cs.Ops)
+		if r.Engine != "" {
+			panic("engine: " + r.Engine)
+		}
+		if r.Key != "" {
+			c.Violation(r.Key, r.What, cs)
+		}
+		return
+	}
 	r := runHistory(cs.Kind, cs.Initial, cs.History)
 	if r.Key != "" {
 		c.Violation(r.Key, r.What, cs)
